@@ -26,3 +26,11 @@ PROPS = {
 
 # Properties not claimed (kept current; reason shown in MANIFEST.not_applicable).
 NOT_APPLICABLE = {}
+
+# Per-property entries delivered as vlib/props_Cxx.py (each defines ENTRY = {...}).
+import glob as _glob, importlib as _importlib, os as _os
+for _f in sorted(_glob.glob(_os.path.join(_os.path.dirname(__file__), "props_C*.py"))):
+    _m = _importlib.import_module("vlib." + _os.path.basename(_f)[:-3])
+    PROPS[_os.path.basename(_f)[6:-3]] = _m.ENTRY
+    if hasattr(_m, "NOT_APPLICABLE_REASON"):
+        NOT_APPLICABLE[_os.path.basename(_f)[6:-3]] = _m.NOT_APPLICABLE_REASON
